@@ -543,6 +543,11 @@ class Case:
         for i, ms in enumerate(step.steps):
             got = [ev.u for ev in ms.sent_events]
             allsent.extend(got)
+            for ev in ms.sent_events:
+                if ev.data.get('z') == 1 and ('delay' not in ev.data or ev.data['delay'] != 0 or isinstance(ev.data['delay'], bool)):
+                    self.report('C03', 'sent-event-parameters-differ', 'micro step %d: the code sent %r with delay=0 explicitly, the '
+                                'event listed carries %r' % (i, ev.name, dict(ev.data)), step=k)
+                    return False
             if got != uids_by_ms[i]:
                 self.report('C03', 'sent-events-differ', 'micro step %d lists sent %r but its code sent %r'
                             % (i, got, uids_by_ms[i]), step=k, step_repr=str(step))
